@@ -41,9 +41,16 @@ func ReadPointCloud(in io.Reader) (*modeling.Mesh, error) {
 		return nil, err
 	}
 
-	readVerts := make([]vector3.Float64, parsedCount)
-	readColors := make([]vector3.Float64, parsedCount)
-	intensity := make([]float64, parsedCount)
+	if parsedCount < 0 {
+		return nil, fmt.Errorf("pts point count %d is negative", parsedCount)
+	}
+
+	// The arrays grow with the lines actually present: a truncated file that
+	// announces 10^9 points must not allocate for them up front.
+	capHint := min(parsedCount, 1<<16)
+	readVerts := make([]vector3.Float64, 0, capHint)
+	readColors := make([]vector3.Float64, 0, capHint)
+	intensity := make([]float64, 0, capHint)
 
 	readIntensity := false
 	readColor := false
@@ -57,6 +64,9 @@ func ReadPointCloud(in io.Reader) (*modeling.Mesh, error) {
 		}
 
 		contents := strings.Fields(line)
+		readVerts = append(readVerts, vector3.Zero[float64]())
+		readColors = append(readColors, vector3.Zero[float64]())
+		intensity = append(intensity, 0)
 
 		// Every point needs at least a position, and a file keeps one column
 		// layout. Anything else (e.g. a line cut short) would leave zero
